@@ -2,18 +2,23 @@
 C11 - translator tie: the bodies of the pure integer functions of rig/geometry.py are regenerated
 from the source into `Gen/PyFun.lean` on every run; here they are proved EQUAL to the hand-written
 model functions the C11 theorems are about.  For these functions the tie to the code is a
-kernel-checked obligation, not a sample.  Likewise `Links.opposite` and `Links.from_vector` (rig/links.py).
+kernel-checked obligation, not a sample.  Likewise `Links.opposite`, `Links.from_vector` and `Links.to_vector`
+(rig/links.py), `shortest_mesh_path` and the generator `concentric_hexagons` (three nested `for` loops; the
+generated loop bodies `concentric_hexagons_loop1..3` are proved to do what the model's `rings` / `walkRing` /
+`walkSide` do, by induction over the iterated lists).
 -/
 import RigModel.Model.C11
 import RigModel.Gen.PyFun
+import RigModel.Lemmas.PyLoops
 import Mathlib.Tactic.SplitIfs
+import Mathlib.Tactic.Ring
 set_option linter.unusedSimpArgs false
 set_option linter.unusedVariables false
 set_option linter.unusedTactic false
 set_option linter.unreachableTactic false
 
 namespace Rig.C11
-open Rig.Gen
+open Rig.Gen Rig.PyLoops
 
 def t3 (v : V3) : Int × Int × Int := (v.x, v.y, v.z)
 
@@ -78,4 +83,107 @@ theorem gen_links_from_vector (x y : Int) : PyFun.Links_from_vector (x, y) = opt
     (try simp (config := {decide := true}) only []) <;> (try split_ifs) <;>
     first | omega | rfl | decide
 
+/-- the model's result as the Python value: vector / KeyError -/
+def optExcP2 : Option P2 → Except String (Int × Int)
+  | some v => .ok v
+  | none => .error "KeyError"
+
+theorem gen_links_to_vector (l : Nat) : PyFun.Links_to_vector l = optExcP2 (toVector l) := by
+  simp only [PyFun.Links_to_vector, toVector, Int.toNat_natCast, lookup_eq_find?]
+  have : ¬ ((l : Int) < 0) := by omega
+  simp only [this, if_false]
+  cases (List.find? (fun e => e.1 == l) Rig.Gen.Links.directionLinkLookup) <;> rfl
+
+theorem gen_links_to_vector_neg (l : Int) (h : l < 0) : PyFun.Links_to_vector l = .error "KeyError" := by
+  simp only [PyFun.Links_to_vector, h, if_true]
+
+theorem gen_mesh_path (s d : V3) : PyFun.shortest_mesh_path (t3 s) (t3 d) = t3 (meshPath s d) := by
+  obtain ⟨sx, sy, sz⟩ := s; obtain ⟨dx, dy, dz⟩ := d
+  first
+  | rfl
+  | (simp only [PyFun.shortest_mesh_path, PyFun.minimise_xyz, meshPath, minimiseXyz, t3, Prod.mk.injEq]
+     refine ⟨?_, ?_, ?_⟩ <;> omega)
+
+/-! ### the generator `concentric_hexagons` -/
+
+/-- one side: `for _ in range(r): yield (x, y); x += dx; y += dy` for ANY step function that does this -/
+theorem side_fold {f : List P2 × Int × Int → Int → List P2 × Int × Int} {dx dy : Int}
+    (hf : ∀ o x y i, f (o, x, y) i = (o ++ [(x, y)], x + dx, y + dy)) :
+    ∀ (l : List Int) (o : List P2) (x y : Int), l.foldl f (o, x, y)
+      = (o ++ walkSide (dx, dy) l.length (x, y), (sideEnd (dx, dy) l.length (x, y)).1, (sideEnd (dx, dy) l.length (x, y)).2)
+  | [], o, x, y => by simp [walkSide, sideEnd]
+  | a :: t, o, x, y => by
+    rw [List.foldl_cons, hf, side_fold hf t]
+    simp only [walkSide, sideEnd, List.length_cons, List.append_assoc, List.singleton_append, Prod.mk.injEq, true_and]
+    constructor <;> (push_cast; ring)
+
+/-- one ring: `for dx, dy in dirs: <side>` -/
+theorem ring_fold {g : List P2 × Int × Int → P2 → List P2 × Int × Int} {n : Nat}
+    (hg : ∀ o x y d, g (o, x, y) d
+      = (o ++ walkSide d n (x, y), (sideEnd d n (x, y)).1, (sideEnd d n (x, y)).2)) :
+    ∀ (ds : List P2) (o : List P2) (x y : Int), ds.foldl g (o, x, y)
+      = (o ++ walkRing n ds (x, y), (ringEnd n ds (x, y)).1, (ringEnd n ds (x, y)).2)
+  | [], o, x, y => by simp [walkRing, ringEnd]
+  | d :: t, o, x, y => by
+    rw [List.foldl_cons, hg, ring_fold hg t]
+    simp only [walkRing, ringEnd, List.append_assoc]
+
+/-- all rings: `for r in range(r0, r0 + n): y -= 1; <ring r>` (state order of the generated code: y, out, x) -/
+theorem rings_fold {h : Int × List P2 × Int → Int → Int × List P2 × Int}
+    (hh : ∀ y o x (r : Nat), h (y, o, x) (r : Int)
+      = ((ringEnd r hexDirs (x, y - 1)).2, o ++ walkRing r hexDirs (x, y - 1), (ringEnd r hexDirs (x, y - 1)).1)) :
+    ∀ (n r0 : Nat) (y : Int) (o : List P2) (x : Int), ∃ y' x',
+      ((List.range n).map (fun (k : Nat) => ((r0 : Nat) : Int) + (k : Int))).foldl h (y, o, x)
+        = (y', o ++ rings n r0 (x, y), x')
+  | 0, r0, y, o, x => ⟨y, x, by simp [rings]⟩
+  | n + 1, r0, y, o, x => by
+    rw [List.range_succ_eq_map, List.map_cons, List.foldl_cons, List.map_map]
+    have e : ((r0 : Nat) : Int) + ((0 : Nat) : Int) = ((r0 : Nat) : Int) := by simp
+    rw [e, hh]
+    have e2 : ((fun (k : Nat) => ((r0 : Nat) : Int) + (k : Int)) ∘ Nat.succ)
+        = (fun (k : Nat) => (((r0 + 1 : Nat)) : Int) + (k : Int)) := by
+      funext k; simp only [Function.comp, Nat.succ_eq_add_one]; push_cast; ring
+    rw [e2]
+    obtain ⟨y', x', e3⟩ := rings_fold hh n (r0 + 1) (ringEnd r0 hexDirs (x, y - 1)).2
+      (o ++ walkRing r0 hexDirs (x, y - 1)) (ringEnd r0 hexDirs (x, y - 1)).1
+    exact ⟨y', x', by rw [e3]; simp only [rings, List.append_assoc]⟩
+
+/-- the tactic that compares a generated loop body with its description: syntactically, else by arithmetic -/
+macro "step_eq" : tactic => `(tactic|
+  first | rfl | (simp only [Prod.mk.injEq, List.append_cancel_left_eq, List.cons.injEq, and_true, true_and]
+                 try (repeat' apply And.intro)
+                 all_goals first | trivial | rfl | omega))
+
+theorem hex_loop3 (dx dy : Int) (o : List P2) (x y i : Int) :
+    PyFun.concentric_hexagons_loop3 dx dy (o, x, y) i = (o ++ [(x, y)], x + dx, y + dy) := by
+  unfold PyFun.concentric_hexagons_loop3
+  step_eq
+
+theorem hex_loop2 (r : Nat) (o : List P2) (x y : Int) (d : P2) :
+    PyFun.concentric_hexagons_loop2 r (o, x, y) d
+      = (o ++ walkSide d r (x, y), (sideEnd d r (x, y)).1, (sideEnd d r (x, y)).2) := by
+  unfold PyFun.concentric_hexagons_loop2
+  dsimp only
+  rw [side_fold (dx := d.1) (dy := d.2) (hex_loop3 d.1 d.2)]
+  simp only [length_pyRange1, Int.sub_zero, Int.toNat_natCast]
+
+theorem hex_loop1 (y : Int) (o : List P2) (x : Int) (r : Nat) :
+    PyFun.concentric_hexagons_loop1 (y, o, x) (r : Int)
+      = ((ringEnd r hexDirs (x, y - 1)).2, o ++ walkRing r hexDirs (x, y - 1), (ringEnd r hexDirs (x, y - 1)).1) := by
+  unfold PyFun.concentric_hexagons_loop1
+  dsimp only
+  rw [ring_fold (n := r) (hex_loop2 r)]
+  first | rfl | (simp only [hexDirs]; rfl)
+
+/-- `concentric_hexagons` as written in the source = the model (the list of yielded points, in order) -/
+theorem gen_concentric_hexagons (radius : Int) (start : P2) :
+    PyFun.concentric_hexagons radius start = concentricHexagons radius start := by
+  obtain ⟨x, y⟩ := start
+  unfold PyFun.concentric_hexagons concentricHexagons
+  have hn : (radius + 1 - 1).toNat = radius.toNat := by congr 1; omega
+  obtain ⟨y', x', e⟩ := rings_fold hex_loop1 radius.toNat 1 y [(x, y)] x
+  simp only [Nat.cast_one] at e
+  dsimp only [List.nil_append]
+  rw [pyRange1_eq, hn, e]
+  rfl
 end Rig.C11
